@@ -23,6 +23,11 @@ pub const PALETTE: &[&str] = &[
     // a paragraph line directly before a table header, with an escaped pipe inside a code span
     "see `a\\|b` below\n| h | i |\n|---|---|\n| c | d |\n", "x \\| y\n| h |\n|-|\n",
     "ask ann@example.org or bob@example.org today", "a@b.c d@e.f g",
+    // a container marker followed by a tab and the line end (the tab is half consumed, nothing is added to the
+    // container), lines that start with a multi-byte character, zero-length text nodes inside links
+    "-\t\n", "1.\t\n", ">\t\n", ">\t", "-\t", "\n\u{e9}t\u{e9}", "\n\u{4e16}", "[`a`  \nb](u)", "[[u|\\*x]]", "![`a`\\\nb](u)",
+    // schemes that contain an autolink trigger character after their first letter (relaxed autolinks rewind over text nodes)
+    "the news://n.o/p x", "a twitter://x.y", "rawr://r.s",
 ];
 
 pub const HOSTILE: &[&str] = &[
@@ -223,6 +228,21 @@ pub fn grammar_doc(r: &mut Rng) -> String {
         }
     }
     s
+}
+
+/// A table `cols` columns wide followed by `rows` one-cell rows: with cols * rows above 500 000 the
+/// parser's auto-completion cap is reached inside the table.
+pub fn cell_cap_table(cols: usize, rows: usize) -> String {
+    let mut md = String::new();
+    md.push_str(&"|a".repeat(cols));
+    md.push_str("|\n");
+    md.push_str(&"|-".repeat(cols));
+    md.push_str("|\n");
+    for _ in 0..rows {
+        md.push_str("|x\n");
+    }
+    md.push_str("\nafter\n");
+    md
 }
 
 pub fn palette_doc(r: &mut Rng) -> String {
